@@ -27,6 +27,35 @@ namespace
 {
     int val_of(int x) { return x; }
     int val_of(const tracked::T &t) { return t.value(); }
+    // a handle / guard style element: copies are implicit (trivial), only the destructor is user-provided. Constructions
+    // cannot be observed, so the oracle counts destructor calls that land inside a container's element storage: an
+    // operation that removes k elements from a container must run exactly k of them there.
+    struct Handle
+    {
+        int v;
+        Handle(int x = 0) : v(x) {}
+        ~Handle() { note(this); }
+        static const char *zone_lo[2], *zone_hi[2];
+        static long hits[2];
+        static void note(const Handle *h)
+        {
+            for (int w = 0; w < 2; w++)
+                if ((const char *)h >= zone_lo[w] && (const char *)h < zone_hi[w]) hits[w]++;
+        }
+    };
+    const char *Handle::zone_lo[2] = {nullptr, nullptr}, *Handle::zone_hi[2] = {nullptr, nullptr};
+    long Handle::hits[2] = {0, 0};
+    int val_of(const Handle &h) { return h.v; }
+    template <class E> struct Watch
+    {
+        static void zone(int, const void *, size_t) {}
+        static long hits(int) { return -1; }
+    };
+    template <> struct Watch<Handle>
+    {
+        static void zone(int w, const void *mem, size_t bytes) { Handle::zone_lo[w] = (const char *)mem; Handle::zone_hi[w] = (const char *)mem + bytes; Handle::hits[w] = 0; }
+        static long hits(int w) { return Handle::hits[w]; }
+    };
 
     // single-pass input iterator over the first `n` elements of a vector; all copies share the read position
     template <class E> struct SinglePass
@@ -90,11 +119,21 @@ namespace
         {
             s[i].alloc();
             s[i].zone();
+            Watch<E>::zone(i, s[i].mem, N * sizeof(E));
             R.guard = true;
             s[i].obj = new (s[i].mem) SV();
             R.guard = false;
         }
         auto truncate = [&](std::vector<int> &v) { if (v.size() > N) { v.resize(N); } };
+        // (element types whose destructor is observable only) an operation that removes `gone` elements of container w ran
+        // exactly `gone` destructors inside its element storage
+        auto expect_destroyed = [&](int w, long before, size_t gone, const char *what) {
+            long h = Watch<E>::hits(w);
+            if (h < 0) return;
+            if (gone) probe("handle_elements_destroyed");
+            if (h - before != (long)gone)
+                violate(std::string("C14/lifetime-destructor-count@") + what, "%s removed %zu elements of a static_vector<Handle,%zu>, but %ld destructors ran inside its element storage", what, gone, N, h - before);
+        };
         auto check = [&](const char *when) {
             check_deferred();
             for (int w = 0; w < 2; w++)
@@ -188,10 +227,13 @@ namespace
             {
                 size_t n = (size_t)mod(arg(o, 2), 2 * N + 2);
                 if (n > N) { overflow_offered = true; probe("resize_beyond_N"); fault("input_beyond_capacity"); }
+                long h0 = Watch<E>::hits(w);
+                size_t old = mx.size();
                 R.guard = true;
                 x.resize(n);
                 R.guard = false;
                 mx.resize(std::min(n, N), 0);
+                if (mx.size() <= old) expect_destroyed(w, h0, old - mx.size(), "resize");
                 break;
             }
             case S_ERASE:
@@ -208,13 +250,17 @@ namespace
                 break;
             }
             case S_CLEAR:
+            {
+                long h0 = Watch<E>::hits(w);
                 x.clear();
+                expect_destroyed(w, h0, mx.size(), "clear");
                 mx.clear();
                 break;
+            }
             case S_COPY_CTOR:
             case S_MOVE_CTOR:
             {
-                s[u].destroy();
+                { long h0 = Watch<E>::hits(u); size_t had = s[u].m.size(); s[u].destroy(); expect_destroyed(u, h0, had, "destruction"); }
                 R.guard = true;
                 if (k == S_COPY_CTOR) s[u].obj = new (s[u].mem) SV(x);
                 else s[u].obj = new (s[u].mem) SV(std::move(x));
@@ -263,7 +309,7 @@ namespace
                 for (size_t i = 0; i < cnt; i++) { src.emplace_back(val + (int)i); msrc.push_back(val + (int)i); }
                 if (cnt > N) { overflow_offered = true; probe("ctor_more_than_N_elements"); fault("input_beyond_capacity"); }
                 if (cnt == 2 * N) probe("ctor_2N_elements");
-                s[u].destroy();
+                { long h0 = Watch<E>::hits(u); size_t had = s[u].m.size(); s[u].destroy(); expect_destroyed(u, h0, had, "destruction"); }
                 R.guard = true;
 #ifdef C14_TWIN
                 // the twin has no iterator-range constructor: fill through push_back, as igris' own vector -> static_vector test does
@@ -306,7 +352,7 @@ namespace
                 std::initializer_list<E> l5 = {E(val), E(val + 1), E(val + 2), E(val + 3), E(val + 4)};
                 const std::initializer_list<E> &il = which == 0 ? l0 : which == 1 ? l2 : l5;
                 if (il.size() > N) { overflow_offered = true; probe("ctor_more_than_N_elements"); fault("input_beyond_capacity"); }
-                s[u].destroy();
+                { long h0 = Watch<E>::hits(u); size_t had = s[u].m.size(); s[u].destroy(); expect_destroyed(u, h0, had, "destruction"); }
                 R.guard = true;
                 s[u].obj = new (s[u].mem) SV(il);
                 R.guard = false;
@@ -321,8 +367,13 @@ namespace
             tr.ev("%c.%s -> %zu/%zu of %zu", w ? 'B' : 'A', S_NAME[k], s[0].m.size(), s[1].m.size(), N);
             check(S_NAME[k]);
         }
-        s[0].release();
-        s[1].release();
+        for (int w = 0; w < 2; w++)
+        {
+            long h0 = Watch<E>::hits(w);
+            size_t had = s[w].m.size();
+            s[w].release();
+            expect_destroyed(w, h0, had, "destruction");
+        }
         check_deferred();
         res.nontrivial = overflow_offered;
     }
@@ -526,10 +577,11 @@ int main(int argc, char **argv)
 {
     SVWorld<int> wi(PARTNAME "static_vector<int>", false);
     SVWorld<tracked::T> wt(PARTNAME "static_vector<Tracked>", true);
+    SVWorld<Handle> wh(PARTNAME "static_vector<Handle>", false);
     SSWorld ws;
     Harness h;
     h.property = "C14";
-    h.worlds = {&wi, &wt, &ws};
+    h.worlds = {&wi, &wt, &ws, &wh};
 #ifdef C14_TWIN
     h.real = {"igris/container/std_portable.h (static_vector, static_string twins)"};
 #else
